@@ -64,9 +64,10 @@ def execute(ex: Execution, n_runs: int, limit: int | None, second_instance: bool
             scripts.append([Action(f"start {t} (other instance)", (lambda t=t: start_run(wf2, t)))])
         if hard_cancel:
             def do_cancel() -> None:
-                # hard-cancel a run that has not started executing yet (if any)
+                # hard-cancel a run that has not started executing yet (if any) - or, in the "executing" variant, one that holds a slot
                 for t in tags1:
-                    if t in handlers and t not in wf1._order and not handlers[t].is_done() and t not in cancelled:
+                    if t in handlers and ((t in wf1._active) if hard_cancel == "executing" else (t not in wf1._order)) \
+                            and not handlers[t].is_done() and t not in cancelled:
                         import warnings
 
                         with warnings.catch_warnings():
@@ -75,7 +76,7 @@ def execute(ex: Execution, n_runs: int, limit: int | None, second_instance: bool
                         cancelled.add(t)
                         return
 
-            scripts.append([Action("hard-cancel a queued run", do_cancel)])
+            scripts.append([Action("hard-cancel an executing run" if hard_cancel == "executing" else "hard-cancel a queued run", do_cancel)])
         expected = set(tags1) | set(tags2)
         if resumed:
             def do_resume() -> None:
@@ -97,7 +98,9 @@ def execute(ex: Execution, n_runs: int, limit: int | None, second_instance: bool
             e.add_script(sc)
         e.cfg.stop_when = lambda hh: all(t in handlers and handlers[t].is_done() for t in expected)
         v: list[Any] = []
-        w = {"limit": limit, "hard_cancel": hard_cancel}
+        w = {"limit": limit, "hard_cancel": bool(hard_cancel)}
+        if hard_cancel == "executing":
+            w["cancelled_run_was_executing"] = True
         if named:
             w["instances_share_an_explicit_name"] = True
         if resumed:
@@ -237,6 +240,10 @@ def programs(tier: str) -> list[Program]:
                           max_dev=(4 if q else None)))
         ps.append(Program(f"two_instances_same_name(n=2,limit={limit})", {"named": True}, (lambda ex, limit=limit: execute(ex, 2, limit, True, False, False, named=True)),
                           max_dev=(4 if q else None)))
+        ps.append(Program(f"hard_cancel_executing(n=3,limit={limit})", {"hard_cancel": "executing"},
+                          (lambda ex, limit=limit: execute(ex, 3, limit, False, "executing", False)), max_dev=(4 if q else None)))
+        ps.append(Program(f"hard_cancel_executing(n=3,limit={limit},staggered)", {"hard_cancel": "executing", "staggered": True},
+                          (lambda ex, limit=limit: execute(ex, 3, limit, False, "executing", True)), max_dev=(4 if q else 6)))
         ps.append(Program(f"hard_cancel(n=3,limit={limit})", {}, (lambda ex, limit=limit: execute(ex, 3, limit, False, True, False)),
                           max_dev=(4 if q else None)))
     for n, limit in (((2, 1), (2, 2)) if q else ((2, 1), (2, 2), (3, 1), (3, 2))):
